@@ -13,7 +13,7 @@
 //       EVERY overlap in 0..nwin-1 for which iscola(win, overlap, method) holds, ranges {onesided, twosided, centered},
 //       methods {ola, wola}, signal lengths not aligned to the hop:
 //       output length nwin + (nseg-1) hop, ALL values finite, and on every sample whose accumulated window weight
-//       W[t] = sum_i win^(a+1)[t - i hop] (own long-double evaluation) exceeds the code's guard nseg*eps:
+//       W[t] = sum_i win^(a+1)[t - i hop] (own long-double evaluation) exceeds the code's guard nseg*eps (`norm <= nseg*eps ? 1 : norm`):
 //          |istft(stft(x))[t] - x[t]| <= 4 eps nfft ||x||_2 * A[t],   A[t] = sum_i |win^a[t - i hop]| / W[t] >= 1
 //       (A[t] is the condition number of the code's normalisation x = sum_i y_i win^a / W: an error e in a
 //        re-synthesised frame sample reaches the output multiplied by win^a / W);
